@@ -1,13 +1,20 @@
 #!/bin/sh
-# tools/try_seeded.sh <patch.diff> <Cxx> [<Cyy> …] — applies a seeded change to /repo, runs the
-# quick checks of the given properties, and reverts exactly that patch again (git apply -R).
-P=$1; shift
-cd /verif
-git -C /repo apply --check "$P" || { echo "patch does not apply"; exit 2; }
-git -C /repo apply "$P"
+# tools/try_seeded.sh <patch.diff> <Cxx> [<Cyy> …]
+# Runs the quick checks of the given properties against a PRIVATE copy of /repo with the seeded
+# change applied (so that builders working against /repo are not disturbed): /root/mutest/repo is
+# a copy of /repo's working tree, /root/mutest/verif a copy of /verif whose harness depends on it.
+set -e
+P=$(readlink -f "$1"); shift
+M=/root/mutest
+mkdir -p $M
+rsync -a --delete --exclude target /repo/ $M/repo/
+rsync -a --delete --exclude work --exclude .git --exclude evidence/replays --exclude harness/target /verif/ $M/verif/ 2>/dev/null || true
+sed -i "s#/repo/crates#$M/repo/crates#g" $M/verif/harness/Cargo.toml
+cd $M/repo && patch -p1 -s -N --fuzz=3 < "$P" || { echo "patch does not apply"; exit 2; }
+cd $M/verif
+export ANYDB_REPO=$M/repo
+rm -f harness/Cargo.lock; cp $M/repo/Cargo.lock harness/Cargo.lock
 for c in "$@"; do
-  echo "=== $c against $(basename $(dirname $P))/$(basename $P)"
-  ./check $c --tier quick 2>&1 | grep -E "VIOLATION|KNOWN-FINDING|quick:|broken" | cut -c1-300
+  echo "=== $c against $P"
+  ./check $c --tier quick 2>&1 | grep -E "VIOLATION|KNOWN-FINDING|quick:|broken|FAILED" | cut -c1-400
 done
-git -C /repo apply -R "$P"
-git -C /repo status --short | grep -v "^ M crates/vecdb\|^ M crates/rawdb" | head -3
